@@ -159,6 +159,48 @@ func lookalike(r *gen.Rand, peer net.IP) string {
 	}
 }
 
+// relatedPeer returns another peer whose bytes embed (part of) p's: the 16-byte mapped form of a 4-byte
+// address and back, the IPv6 address with the same leading four bytes and a zero tail, the one with the
+// same trailing four bytes, the leading/trailing four bytes of an IPv6 address as IPv4, a neighbour.
+func relatedPeer(r *gen.Rand, p []byte) []byte {
+	out16 := func() []byte { return make([]byte, 16) }
+	if len(p) == 4 {
+		switch r.Intn(5) {
+		case 0:
+			return []byte(net.IP(p).To16())
+		case 1, 2: // a.b.c.d -> aabb:ccdd::
+			o := out16()
+			copy(o, p)
+			return o
+		case 3: // ::a.b.c.d
+			o := out16()
+			copy(o[12:], p)
+			return o
+		default:
+			return []byte(neighbour(r, net.IP(p)))
+		}
+	}
+	switch r.Intn(6) {
+	case 0, 1:
+		return append([]byte{}, p[:4]...)
+	case 2:
+		return append([]byte{}, p[12:]...)
+	case 3: // same leading four bytes, zero tail
+		o := out16()
+		copy(o, p[:4])
+		return o
+	case 4:
+		if v4 := net.IP(p).To4(); v4 != nil {
+			return []byte(v4)
+		}
+		o := out16()
+		copy(o[12:], p[12:])
+		return o
+	default:
+		return []byte(neighbour(r, net.IP(p)))
+	}
+}
+
 func genProxyEntry(r *gen.Rand, peer net.IP) string {
 	is4 := peer.To4() != nil
 	switch r.Intn(16) {
@@ -374,6 +416,18 @@ func interleave(r *gen.Rand, common, fwd [][2]string) []string {
 func genCase(w *gen.Writer, r *gen.Rand) (cfgIn, connIn, []string, []string) {
 	cn := genPeer(r)
 	c := genCfg(r, cn)
+	if cn.tcp && r.Chance(1, 3) { // a short history on one app: 1-3 earlier requests from related peers
+		last := cn.ip
+		for n := 1 + r.Intn(3); n > 0; n-- {
+			p := relatedPeer(r, last)
+			if r.Chance(1, 3) {
+				p = relatedPeer(r, cn.ip)
+			}
+			cn.pre = append(cn.pre, p)
+			last = p
+		}
+		w.Count("history")
+	}
 	var common [][2]string
 	for i := r.Intn(4); i > 0; i-- {
 		common = append(common, gen.Pick(r, commonHeaders))
